@@ -112,13 +112,18 @@ def _format_value(v, tdm=False):
 
     if isinstance(v, sym.Expr):
         # the expression contains free parameters: enclose each of them in braces,
-        # matching whole identifiers only (not parts of other names or of numbers)
+        # matching whole identifiers only (not parts of other names or of numbers);
+        # SymPy's imaginary unit I is written as the Blackbird literal 1j
         names = {str(p) for p in v.free_symbols}
-        return re.sub(
-            r"(?<![0-9A-Za-z_.])[A-Za-z_][0-9A-Za-z_]*",
-            lambda m: "{" + m.group(0) + "}" if m.group(0) in names else m.group(0),
-            str(v),
-        )
+
+        def _identifier(m):
+            if m.group(0) in names:
+                return "{" + m.group(0) + "}"
+            if m.group(0) == "I":
+                return "1j"
+            return m.group(0)
+
+        return re.sub(r"(?<![0-9A-Za-z_.])[A-Za-z_][0-9A-Za-z_]*", _identifier, str(v))
 
     # booleans, ints and floats (Python or NumPy scalars)
     return "{}".format(v)
